@@ -18,6 +18,7 @@ case (JSON):
    'plain': 0|1   also run once with cache=None (the DEFAULT dict, ungated) and compare the observable
                   events; only meaningful for sched == [] (non-preemptive default: every thread runs
                   until its loop idles, so the gates of the cache do not change the interleaving)
+   'none': 0|1    successful invocations return None (a legitimate result that must be cached like any other)
    'cache': 'dict' (default: gated dict subclass) | 'map' (gated MutableMapping that is not a dict)
   }
 Caller ids are global, numbered thread by thread in program order.
@@ -80,6 +81,7 @@ class Run:
         self.gated_cache = gated_cache
         self.xround = {}
         self.ntryfail = 0
+        self.last_ok = {}
         self.tryfailed = {}
 
     def log(self, *ev):
@@ -252,6 +254,13 @@ def _thread_body(R, ti, fn):
                 n = type(e).__name__
                 R.log('done', cid, 3, LIB_CLASSES.index(n) if n in LIB_CLASSES else len(LIB_CLASSES), R.tick())
             else:
+                if R.case.get('none') and v is None:
+                    # 'none' mode: successful invocations return None, which cannot identify the invocation
+                    # that produced it; the payload is the driver's record of the (last) successful
+                    # invocation of this key — what is judged in this mode is the number and overlap of
+                    # invocations (a cached None must still be a hit) and the kinds of the outcomes
+                    R.log('done', cid, 0, R.last_ok.get(KEY_ARG.get(key, key), 4998), R.tick())
+                    return
                 ok = isinstance(v, tuple) and len(v) == 2 and v[0] == 'v'
                 R.log('done', cid, 0 if ok else 3, v[1] if ok else len(LIB_CLASSES) + 1, R.tick())
 
@@ -310,7 +319,7 @@ def _thread_body(R, ti, fn):
 def _make_fn(R, lib, cache):
     script = R.case['invs']
 
-    async def body(i, dur, ok):
+    async def body(i, dur, ok, arg):
         try:
             if dur == 0:
                 await asyncio.sleep(0)
@@ -321,7 +330,8 @@ def _make_fn(R, lib, cache):
             raise
         if ok:
             R.log('iend', i, 0, R.tick())
-            return ('v', i)
+            R.last_ok[arg] = i
+            return None if R.case.get('none') else ('v', i)
         R.log('iend', i, 1, R.tick())
         raise HarnessExc(i)
 
@@ -336,7 +346,7 @@ def _make_fn(R, lib, cache):
         if dur == -2:
             R.log('iend', i, 1, R.tick())
             raise HarnessExc(i)
-        return body(i, dur, ok)
+        return body(i, dur, ok, key)
 
     if cache is None:
         return lib.threadsafe_async_cache(user)
